@@ -7,9 +7,8 @@ set_option linter.unusedVariables false
 namespace MqttVerif.Conn
 open MqttVerif Mon
 
-def isSendEv : Ev → Bool
-  | .send _ _ => true
-  | _ => false
+/- `isSendEv` ("the event is a `RequestSendPacket`") is defined in `Conn/Model.lean` since fix
+   999e935 (it is what `resendStored` tests) -/
 
 @[simp] theorem isSendEv_send (p r) : isSendEv (.send p r) = true := rfl
 @[simp] theorem isSendEv_reset (k ms) : isSendEv (.timerReset k ms) = false := rfl
@@ -63,6 +62,8 @@ theorem stev_of_tev {l₁ l₂ : List Ev} (h : tev l₁ = tev l₂) : stev l₁ 
   cases h : (Alloc.deallocate c.s.pidMan id).1 <;> simp [releaseId, h]
 @[simp] theorem releaseIfUsed_sends (c : C) (id : Nat) : sends (releaseIfUsed c id).ev = sends c.ev := by
   unfold releaseIfUsed; split <;> simp
+@[simp] theorem refuseSend_sends (c : C) (e : Nat) (p : Pkt) : sends (refuseSend c e p).ev = sends c.ev := by
+  unfold refuseSend; split <;> simp
 @[simp] theorem clearStoreRelated_sends (c : C) : sends (clearStoreRelated c).ev = sends c.ev := rfl
 @[simp] theorem initConn_sends (c : C) (b : Bool) : sends (initConn c b).ev = sends c.ev := rfl
 @[simp] theorem storeAdd_sends (c : C) (id : Nat) (p : Pkt) (m : String) :
@@ -237,8 +238,8 @@ theorem processSend_sendok (c : C) (p : Pkt) : SendOK c (processSend c p) := by
 
 theorem send_sendok (c : C) (p : Pkt) : SendOK c (send c p) := by
   unfold send; (repeat' split)
-  · exact .inl ⟨by simp, by simp⟩
-  · exact .inl ⟨by simp, by simp⟩
+  · exact .inl ⟨by simp, (refuseSend_tv c _ p).2.1⟩
+  · exact .inl ⟨by simp, (refuseSend_tv c _ p).2.1⟩
   · exact processSend_sendok c p
 
 end MqttVerif.Conn
